@@ -47,7 +47,7 @@ func init() {
 		ID:   "C18",
 		Rule: "a table is generated from a vector of the rule-relevant features: editable ancestor (a wrapper div, <body> or <html>); table role in {none, presentation, grid, treegrid, landmark(main)}; descendant role in {none, row, gridcell, landmark(search)}; datatable=0; nested 1x1 table; body rows in {1,2,3,19,20}; columns in {1,2,4,5}; header structure in {none, caption, thead, tfoot, colgroup, col, th, th whose label sits in a <button>}, the last five also preceded by a text-less <caption>; cell feature in {none, abbr, headers, scope, lone <abbr> child}; summary; total cells in {12,10,11} at 3x4; embedded {none, embed, object, applet, iframe}; placed in a div, an article>section, a blockquote or a td of a layout table, after two long paragraphs. Observation: the table is data iff a <table> element occurs in Result.Node. Oracle: a reference implementation of the stated cascade. thorough = the full cross product of the grid (exhaustive); quick = base + all single settings + all pairs of settings of two different dimensions + a seeded sample of the grid. Every vector is a distinct non-trivial case.",
 		Assumptions: []string{
-			"landmark roles used are main/search (navigation/complementary are also 'unlikely' roles of the converter and would blind the observer)",
+			"landmark roles: main, search on the table; search, navigation, complementary on a cell (the last two are also 'unlikely' roles: on long pages the cell is skipped from the output, the table itself is still identified by its other cells)",
 			"a retained table follows retained text, so 'no <table> in the output' means 'classified as layout'; placement inside <li> is not generated because the text of a layout table inside a list item is cloned together with its table ancestors, which blinds this observer",
 			"rows are <tr> elements, the columns of a row are its cells, <td> and <th> alike; a rowspan/colspan that is not a positive number counts as 1",
 			"an editable area is an ancestor whose contenteditable attribute is in the true or plaintext-only state (\"true\", \"\", no value, \"plaintext-only\", any letter case)",
@@ -114,7 +114,14 @@ func runC18(c *Ctx, idx int) {
 	// still has a header structure, whichever way an empty caption is read
 	f.BlankCap = (idx/3)%2 == 0
 	f.EditSpell = int(mix64(uint64(idx)) % 4)
+	f.RoleSpell = int(mix64(uint64(idx)*7+3) % 8) // 5, 6, 7: as is
+	f.LongPage = mix64(uint64(idx)*11+5)%3 == 0
 	f.Pre = int(mix64(uint64(idx)*5+1) % 8) // 0, 6, 7: no other table
+	if (f.DescRole == "navigation" || f.DescRole == "complementary") && f.LongPage && f.Rows*f.Cols == 1 {
+		// the only cell of the table carries an 'unlikely' role and is skipped on a long page: nothing of the table is left to observe
+		c.Inc("observer_blind_skipped")
+		return
+	}
 	src, lo, hi := f.docRange()
 	c.SetInput(func() any { return map[string]any{"html": src, "features": f} })
 	cr := c.applyVariant(src, nil, idx/3)
